@@ -283,6 +283,8 @@ func HydrateLog(_type LogType, data []byte) (any, error) {
 		payload = &SetMetadataLogPayload{}
 	case RevertedTransactionLogType:
 		payload = &RevertedTransactionLogPayload{}
+	case DeleteMetadataLogType:
+		payload = &DeleteMetadataLogPayload{}
 	default:
 		panic("unknown type " + _type.String())
 	}
